@@ -598,6 +598,10 @@ def c17_flat_case(spec, res, batch, tag, rng, max_starts=3):
         res.nontrivial.add((len(mem), tuple(sorted(E)), tuple(spec["forever"])))
     res.hist("c17_nodes", len(mem))
     enc = encode(objs)
+    # exit_jobs() first, on the fresh objects: it has to compute the reverse links by itself
+    ex0 = sorted(j.jid for j in top.exit_jobs())
+    if ex0 != sorted(x for x in mem if not any(b == x for a, b in E) and x not in spec["forever"]):
+        res.violations.append(("exit_jobs() as the first query on a fresh graph is wrong: %s" % ex0, case0))
     start_sets = []
     for k in range(1, min(len(mem), max_starts) + 1):
         combos = list(itertools.combinations(mem, k))
@@ -703,8 +707,18 @@ def c17_edit_case(rng, res, batch, tag):
         E = {(x, r.jid) for x in members for r in objs[x].required if r.jid in members}
         R = reach(members, E)
         res.evaluations += 1
+        case = dict(kind="edit", spec=spec, history=list(hist), start=None, tag=tag)
+        ex = sorted(j.jid for j in top.exit_jobs(discard_forever=False))
+        if ex != sorted(x for x in members if not any(b == x for a, b in E)):
+            res.violations.append(("exit_jobs() stale after edits: %s" % ex, case))
+        ent = sorted(j.jid for j in top.entry_jobs())
+        if ent != sorted(x for x in members if not objs[x].required):
+            res.violations.append(("entry_jobs() wrong after edits: %s" % ent, case))
         for a in members:
             case = dict(kind="edit", spec=spec, history=list(hist), start=a, tag=tag)
+            up = sorted(j.jid for j in top.predecessors_upstream(objs[a]))
+            if up != sorted({y for x, y in R if x == a}):
+                res.violations.append(("predecessors_upstream wrong after edits", case))
             down = sorted(j.jid for j in top.successors_downstream(objs[a]))
             succ = sorted(j.jid for j in top.successors(objs[a]))
             enc = encode(objs)
